@@ -917,13 +917,30 @@ func countPaths(fn *ssa.Function, start ssa.Instruction, isEnd, isM func(ssa.Ins
 func rangeChanLoops(fn *ssa.Function) []*loop {
 	var out []*loop
 	for _, l := range loopsOf(fn) {
-		if l.head.Comment != "rangechan.loop" {
-			continue
-		}
 		for _, in := range l.head.Instrs {
-			if u, ok := in.(*ssa.UnOp); ok && u.Op == token.ARROW && u.CommaOk {
-				out = append(out, l)
+			u, ok := in.(*ssa.UnOp)
+			if !ok || u.Op != token.ARROW || !u.CommaOk {
+				continue
 			}
+			// the channel must be the same in every iteration (`for x := range ch`, or the equivalent
+			// `for { x, ok := <-ch; if !ok { break } … }`), not a cursor that moves from channel to channel
+			if ph, isPhi := u.X.(*ssa.Phi); isPhi && l.blocks[ph.Block()] {
+				continue
+			}
+			if ui, isLoad := u.X.(*ssa.UnOp); isLoad {
+				if a, isA := ui.X.(*ssa.Alloc); isA {
+					moved := false
+					for _, st := range storesTo(fn, a) {
+						if l.blocks[st.Block()] {
+							moved = true
+						}
+					}
+					if moved {
+						continue
+					}
+				}
+			}
+			out = append(out, l)
 		}
 	}
 	return out
